@@ -252,6 +252,10 @@ func (d *Descriptor) readAsMapEntry(out Outputter, data []byte) (n int, err erro
 
 	l := len(data)
 
+	// The key and the value are omitted from the entry when they are zero.
+	// JSON needs both, so note what we see and fill in what we don't.
+	var keySeen, valueSeen bool
+
 	var offset int
 	for offset < l {
 		wt, index, n := plenccore.ReadTag(data[offset:])
@@ -294,6 +298,16 @@ func (d *Descriptor) readAsMapEntry(out Outputter, data []byte) (n int, err erro
 			fl = int(v) + offset
 		}
 
+		if elt == &d.Elements[0] {
+			keySeen = true
+		} else {
+			if !keySeen {
+				out.NameField("")
+				keySeen = true
+			}
+			valueSeen = true
+		}
+
 		n, err := elt.read(out, data[offset:fl])
 		if err != nil {
 			return 0, fmt.Errorf("failed reading field %d(%s) of %s. %w", index, elt.Name, d.Name, err)
@@ -301,7 +315,60 @@ func (d *Descriptor) readAsMapEntry(out Outputter, data []byte) (n int, err erro
 		offset += n
 	}
 
+	if !keySeen {
+		out.NameField("")
+	}
+	if !valueSeen {
+		d.Elements[1].writeZero(out)
+	}
+
 	return offset, nil
+}
+
+// writeZero outputs the value an omitted field stands for
+func (d *Descriptor) writeZero(out Outputter) {
+	if d.ExplicitPresence {
+		out.Raw("null")
+		return
+	}
+	switch d.Type {
+	case FieldTypeInt:
+		out.Int64(0)
+	case FieldTypeFlatInt:
+		if d.LogicalType == LogicalTypeTimestamp {
+			out.Time(time.Time{})
+		} else {
+			out.Int64(0)
+		}
+	case FieldTypeUint:
+		out.Uint64(0)
+	case FieldTypeFloat32:
+		out.Float32(0)
+	case FieldTypeFloat64:
+		out.Float64(0)
+	case FieldTypeString:
+		out.String("")
+	case FieldTypeBool:
+		out.Bool(false)
+	case FieldTypeTime:
+		out.Time(time.Time{})
+	case FieldTypeStruct, FieldTypeJSONObject:
+		out.StartObject()
+		out.EndObject()
+	case FieldTypeSlice:
+		if d.isValidJSONMap() {
+			out.StartObject()
+			out.EndObject()
+		} else {
+			out.StartArray()
+			out.EndArray()
+		}
+	case FieldTypeJSONArray:
+		out.StartArray()
+		out.EndArray()
+	default:
+		out.Raw("null")
+	}
 }
 
 func (d *Descriptor) readAsStruct(out Outputter, data []byte) (n int, err error) {
